@@ -284,6 +284,9 @@ class Fn:
                     return ("(%s %s %s)" % (m[type(op)], a[0], b[0]), 'B')
                 if isinstance(op, ast.Mult) and self.spec.get("int_casts"):   # [C18] product of two boolean masks = and
                     return ("(andb %s %s)" % (a[0], b[0]), 'B')
+                # [C03] spec option "bool_mask_arith" (off by default): numpy boolean masks, m1 * m2 = and, m1 + m2 = or
+                if self.spec.get("bool_mask_arith") and isinstance(op, (ast.Mult, ast.Add)):
+                    return ("(%s %s %s)" % ("andb" if isinstance(op, ast.Mult) else "orb", a[0], b[0]), 'B')
                 _fail(n, "bool binop")
             if a[1] == 'LF' and b[1] == 'Z' and isinstance(op, ast.Mod) and self.spec.get("list_mod"):
                 # [C14] spec option "list_mod": <float array> % <int>, element-wise, by the declared function
@@ -326,6 +329,15 @@ class Fn:
                 x, y = (conv, num) if bo is a else (num, conv)
                 return ("(%s OP %s %s)" % ("add" if isinstance(op, ast.Add) else "mul", x[0], y[0]), 'F')
             _fail(n, "binop %s on %s,%s" % (type(op).__name__, a[1], b[1]))
+        if isinstance(n, ast.Compare) and self.spec.get("small_arrays") and len(n.ops) == 1:
+            # [C11] spec option "small_arrays": `arr < c` on a two-element float array (a pair) is the pair of comparisons
+            lt = self.expr(n.left, env)
+            if lt[1] == ('T', 'F', 'F'):
+                rt = self.expr(n.comparators[0], env)
+                if rt[1] in ('Z', 'F'):
+                    c0 = self.cmp(n, n.ops[0], ("a0__", 'F'), rt)
+                    c1 = self.cmp(n, n.ops[0], ("a1__", 'F'), rt)
+                    return ("(let '(a0__, a1__) := %s in (%s, %s))" % (lt[0], c0, c1), ('T', 'B', 'B'))
         if isinstance(n, ast.Compare):
             terms = []
             left = self.expr(n.left, env)
@@ -497,6 +509,15 @@ class Fn:
         if name == "slice" and len(args) == 2:
             if args[0][1] == 'Z' and args[1][1] == 'Z':
                 return ("(mk_slice %s %s)" % (args[0][0], args[1][0]), 'S')
+        if self.spec.get("small_arrays") and len(args) == 1:
+            # [C11] spec option "small_arrays": reductions of a two-element array (a pair); np.array([a, b]) is the pair itself
+            if name in ("np.min", "np.max") and args[0][1] == ('T', 'F', 'F'):
+                self.uses_T = True
+                return ("(let '(a0__, a1__) := %s in f%s OP a0__ a1__)" % (args[0][0], name[3:]), 'F')
+            if name == "np.all" and args[0][1] == ('T', 'B', 'B'):
+                return ("(let '(b0__, b1__) := %s in andb b0__ b1__)" % args[0][0], 'B')
+            if name in ("np.array", "np.asarray") and args[0][1] == ('T', 'F', 'F'):
+                return args[0]
         if name in ("max", "min") and len(args) == 2:
             if args[0][1] == 'Z' and args[1][1] == 'Z':
                 return ("(Z.%s %s %s)" % (name, args[0][0], args[1][0]), 'Z')
@@ -651,6 +672,14 @@ class Fn:
             return self.block(rest, env, rtype)
         if self.is_logging(s):      # [C13] spec option "ignore_logging"
             return self.block(rest, env, rtype)
+        if isinstance(s, ast.Try) and self.spec.get("try_reraise"):
+            # [C11] spec option "try_reraise": `try: BODY except E as err: raise X from err` (every handler only re-raises,
+            # no else/finally) is BODY on the inputs for which BODY does not raise; the exceptional inputs are outside the
+            # translated domain and must be named in the spec's note (the hand model / correspondence covers them)
+            if s.orelse or s.finalbody or not s.handlers or \
+                    not all(len(h.body) == 1 and isinstance(h.body[0], ast.Raise) for h in s.handlers):
+                _fail(s, "try statement that does more than re-raise")
+            return self.block(list(s.body) + rest, env, rtype)
         if isinstance(s, ast.Return):
             if s.value is None:
                 _fail(s, "bare return")
